@@ -290,41 +290,61 @@ def edge_programs():
     return out
 
 
-def nested(kind, depth):
-    """deep-but-allowed nesting (<= 64 levels by the quantifier)"""
+def nested(kind, depth, core="1"):
+    """deep-but-allowed nesting (<= 64 levels by the quantifier); `core` is the innermost expression"""
     if kind == "paren":
-        return "let x = " + "(" * depth + "1" + ")" * depth + ";"
+        return "let x = " + "(" * depth + core + ")" * depth + ";"
     if kind == "list":
-        return "let x = " + "[" * depth + "1" + "]" * depth + ";"
+        return "let x = " + "[" * depth + core + "]" * depth + ";"
     if kind == "tuple":
-        return "let x = " + "{a = " * depth + "1" + "}" * depth + ";"
+        return "let x = " + "{a = " * depth + core + "}" * depth + ";"
     if kind == "selector":
-        return "let t = " + "{a = " * depth + "1" + "}" * depth + "; let x = t" + ".a" * depth + ";"
+        return "let t = " + "{a = " * depth + core + "}" * depth + "; let x = t" + ".a" * depth + ";"
     if kind == "not":
-        return "let x = " + "not " * depth + "true;"
+        return "let x = " + "not " * depth + ("true" if core == "1" else core) + ";"
     if kind == "call":
-        return "let f = func (a) => a; let x = " + "f(" * depth + "1" + ")" * depth + ";"
+        return "let f = func (a) => a; let x = " + "f(" * depth + core + ")" * depth + ";"
     if kind == "copy":
-        return "let t = {a = 1}; let x = " + "t{a = " * depth + "1" + "}" * depth + ";"
+        return "let t = {a = 1}; let x = " + "t{a = " * depth + core + "}" * depth + ";"
     if kind == "binary":
-        return "let x = " + "1 + " * depth + "1;"
+        return "let x = " + "1 + " * depth + core + ";"
     if kind == "func":
-        return "let x = " + "func (a) => " * depth + "1;"
+        return "let x = " + "func (a) => " * depth + core + ";"
     if kind == "select":
-        return "let x = " + "select (\"a\", 0) => {a = " * depth + "1" + "}" * depth + ";"
+        return "let x = " + "select (\"a\", 0) => {a = " * depth + core + "}" * depth + ";"
     if kind == "module":
-        return "let x = " + "module {} => { let m = " * depth + "1" + "; }" * depth + ";"
+        return "let x = " + "module {} => { let m = " * depth + core + "; }" * depth + ";"
     if kind == "concat":
-        return "let x = " + "[1] + " * depth + "[1];"
+        return "let x = " + "[1] + " * depth + ("[1]" if core == "1" else core) + ";"
     if kind == "format":
-        return "let x = " + "\"@\" % (" * depth + "1" + ")" * depth + ";"
+        return "let x = " + "\"@\" % (" * depth + core + ")" * depth + ";"
     if kind == "trace":
-        return "let x = " + "TRACE " * depth + "1;"
+        return "let x = " + "TRACE " * depth + core + ";"
     if kind == "cast":
-        return "let x = " + "int(" * depth + "1" + ")" * depth + ";"
+        return "let x = " + "int(" * depth + core + ")" * depth + ";"
     if kind == "constraint-list":
-        return "let x :: " + "[" * depth + "1" + "]" * depth + " = " + "[" * depth + "1" + "]" * depth + ";"
+        return "let x :: " + "[" * depth + "1" + "]" * depth + " = " + "[" * depth + core + "]" * depth + ";"
     raise ValueError(kind)
+
+
+
+
+BROKEN_CORES = ["", "1 +", "+", ")", "]", "}", "let", "\"unterminated", "1 1", ",", "."]
+
+
+def nested_broken(kind, depth):
+    """the same nests with something that is NOT an expression at the innermost position, and cut off there: every level
+    of the nest fails to parse, which is where a backtracking parser re-parses the inner text at every level"""
+    out = []
+    for c in BROKEN_CORES:
+        out.append(("core:" + (c or "empty"), nested(kind, depth, core=c)))
+    mark = "\x00CORE\x00"
+    t = nested(kind, depth, core=mark)
+    cut = t[:t.index(mark)]
+    out.append(("cut-before-core", cut))
+    out.append(("cut-before-core+;", cut + ";"))
+    out.append(("cut-after-core", cut + "1"))
+    return out
 
 
 NEST_KINDS = ["paren", "list", "tuple", "selector", "not", "call", "copy", "binary", "func", "select", "module", "concat",
